@@ -46,11 +46,19 @@ impl embedded_hal_async::spi::Error for SpiErr {
 pub(crate) struct SpiLog {
     pub t: [Tx; MAXT],
     pub n: usize,
-    pub script: [u8; MAXRB * MAXT],
+    pub script: [[u8; MAXRB]; MAXT],
     pub fail_at: usize,
     pub probe: usize,
+    /// reads longer than MAXRB bytes (packet payload): only the byte at the universally
+    /// quantified index `big_j` is written (value `big_v`); `big_len` = length of the slice
+    /// the driver asked to fill, `big_row` = transaction index
+    pub big_j: usize,
+    pub big_v: u8,
+    pub big_len: usize,
+    pub big_row: usize,
 }
-pub(crate) static mut SPI: SpiLog = SpiLog { t: [TX0; MAXT], n: 0, script: [0; MAXRB * MAXT], fail_at: usize::MAX, probe: 0 };
+pub(crate) static mut SPI: SpiLog = SpiLog { t: [TX0; MAXT], n: 0, script: [[0; MAXRB]; MAXT], fail_at: usize::MAX, probe: 0,
+    big_j: 0, big_v: 0, big_len: usize::MAX, big_row: usize::MAX };
 
 /// the log of the (single) mock SPI device
 pub(crate) fn spi() -> &'static mut SpiLog {
@@ -67,6 +75,10 @@ impl MockSpi {
         l.script = kani::any();
         l.fail_at = usize::MAX;
         l.probe = kani::any();
+        l.big_j = kani::any();
+        l.big_v = kani::any();
+        l.big_len = usize::MAX;
+        l.big_row = usize::MAX;
         MockSpi
     }
     /// as `new`, failing at an arbitrary transaction index
@@ -83,7 +95,7 @@ impl MockSpi {
     fn fill(row: usize, base: usize, b: &mut [u8]) {
         kani::assert(base + b.len() <= MAXRB, "mock: more than 12 bytes read in one transaction (use the payload mock)");
         let l = spi();
-        macro_rules! rd { ($i:expr) => { if $i < b.len() { b[$i] = l.script[row * MAXRB + base + $i]; } }; }
+        macro_rules! rd { ($i:expr) => { if $i < b.len() { b[$i] = l.script[row][base + $i]; } }; }
         rd!(0); rd!(1); rd!(2); rd!(3); rd!(4); rd!(5); rd!(6); rd!(7); rd!(8); rd!(9); rd!(10); rd!(11);
     }
 }
@@ -121,7 +133,16 @@ impl SpiDevice<u8> for MockSpi {
             [Operation::Write(a), Operation::Read(b)] => {
                 Self::copy_head(&mut tx.w, a);
                 tx.wlen = a.len();
-                Self::fill(row, 0, b);
+                if b.len() > MAXRB {
+                    // payload read: one universally quantified position instead of a 255-step loop
+                    if l.big_j < b.len() {
+                        b[l.big_j] = l.big_v;
+                    }
+                    l.big_len = b.len();
+                    l.big_row = row;
+                } else {
+                    Self::fill(row, 0, b);
+                }
                 tx.rlen = b.len();
             }
             [Operation::Write(a), Operation::Read(st), Operation::Read(b)] => {
